@@ -6,6 +6,8 @@ mod props;
 mod refm;
 mod report;
 mod rx;
+mod rxalpha;
+mod rxmodel;
 mod sender;
 mod tx;
 
@@ -62,12 +64,15 @@ fn main() {
 fn dispatch(id: &str, tier: Tier) -> i32 {
     match id {
         "C01" => props::c01::run(tier),
+        "C05" => props::c05::run(tier),
         "C06" => props::c06::run(tier),
+        "C08" => props::c08::run(tier),
         "C09" => props::c09::run(tier),
         "C11" => props::c11::run(tier),
         "C12" => props::c12::run(tier),
         "C14" => props::c14::run(tier),
         "C15" => props::c15::run(tier),
+        "C16" => props::c16::run(tier),
         "C17" => props::c17::run(tier),
         "C18" => props::c18::run(tier),
         _ => {
